@@ -41,15 +41,30 @@ class Template:
         )
         line = self.proc.stdout.readline()
         if not line:
+            self._reap()
             raise HarnessError("template failed to start: %r" % (boot,))
         hello = json.loads(line)
         if not hello.get("ready"):
+            self._reap()
             raise HarnessError("template boot failed: %s" % hello.get("error"))
         self.hello = hello
 
+    def _reap(self):
+        try:
+            self.proc.kill()
+        except Exception:
+            pass
+        try:
+            self.proc.wait(timeout=5)
+        except Exception:
+            pass
+
     def request(self, req):
-        self.proc.stdin.write(json.dumps(req).encode() + b"\n")
-        self.proc.stdin.flush()
+        try:
+            self.proc.stdin.write(json.dumps(req).encode() + b"\n")
+            self.proc.stdin.flush()
+        except (BrokenPipeError, OSError) as e:
+            raise HarnessError("template pipe broken: %r" % (e,))
         line = self.proc.stdout.readline()
         if not line:
             raise HarnessError("template died during request")
